@@ -9,3 +9,28 @@ package document
 //@   trusted
 //@   results o, err
 //@   ensures err == nil ==> (forall q int :: 0 <= q && q < len(o.AdditionalOperations) ==> o.AdditionalOperations[q] != nil && o.AdditionalOperations[q].TransactionTime < 4611686018427387904)
+
+// ---- C17: decoded views of a document value ----
+// The string / key / service lists decoded from a JSON value are functions of that (interface) value: JSON arrays
+// inside documents are never mutated in place, the composer only builds new ones (assumption, see DESIGN.md C17).
+//@ spec strArr(e any) []string
+//@ func StringArray
+//@   trusted
+//@   ensures result == strArr(entry) && allocated(result)
+//@ spec pkArr(e any) []PublicKey
+//@ spec svcArr(e any) []Service
+//@ spec idOf(m map[string]any) string
+//@ func ParsePublicKeys
+//@   trusted
+//@   ensures result == pkArr(entry) && allocated(result)
+//@ func ParseServices
+//@   trusted
+//@   ensures result == svcArr(entry) && allocated(result)
+// the id of a key / service object is read from the object itself; key and service objects are not mutated by the
+// composer (it replaces whole objects), so the id is treated as a function of the object reference
+//@ func (PublicKey).ID
+//@   trusted
+//@   ensures result == idOf(pk)
+//@ func (Service).ID
+//@   trusted
+//@   ensures result == idOf(s)
